@@ -44,9 +44,12 @@ pub const SHAPES: [(usize, usize); 12] = [(0, 0), (1, 0), (16, 1), (17, 16), (64
 /// shape 11: last tag byte 00 with a block-sized body
 fn witness_aad(refctx: &crate::refmodel::Ctx, pos: u128, shape: usize, pt: &[u8]) -> Option<Vec<u8>> {
     let nt = refctx.suite.aead.nt();
-    for ctr in 0u32..20000 {
+    // (GHASH is GF(2)-linear in the aad: a counter in a few low bits spans only an affine subspace of the tag
+    // bytes, which can miss 00 altogether - so the aad varies in 64 pseudo-random bits and in its length)
+    for ctr in 0u64..20000 {
         let mut aad = b"wit-".to_vec();
-        aad.extend_from_slice(&ctr.to_be_bytes());
+        aad.extend_from_slice(&crate::rng::splitmix(ctr).to_be_bytes());
+        aad.extend(std::iter::repeat(0x77).take((ctr % 5) as usize));
         let ct = refctx.seal_at(pos, &aad, pt);
         let tag = &ct[ct.len() - nt..];
         let ok = match shape {
@@ -128,7 +131,7 @@ impl Part for C06 {
         let (enc, refctx) = match r1_setup_s(c.suite, &m, &k.pk_r, &info, &k.ikm_e) {
             Some(x) => x,
             None => {
-                out.fail("R1 setup failed");
+                out.fail_machinery("R1 setup failed");
                 return out;
             }
         };
@@ -148,7 +151,7 @@ impl Part for C06 {
                 match witness_aad(&refctx, base + i as u128, shape, &pt) {
                     Some(a) => a,
                     None => {
-                        out.fail("no witness aad found in 20000 tries (machinery)");
+                        out.fail_machinery("no witness aad found");
                         return out;
                     }
                 }
